@@ -104,6 +104,10 @@ func (pr *Program) VerifyFunc(fi *FuncInfo) (rep *FuncReport) {
 		}
 	}
 	x.bindParams(s, cc, fi.Decl.Type, fi.Decl.Recv, recv, args, fi.Decl.Pos())
+	if c.Invokes != "" {
+		x.entrySnap = s.Clone()
+		x.entryWorld = wid
+	}
 	if fi.Lit != nil {
 		ownCtx := false
 		for i := 0; i < sig.Params().Len(); i++ {
@@ -445,6 +449,11 @@ func (x *Exec) applyContract(s *State, fi *FuncInfo, recv *Value, args []*Value,
 			continue
 		}
 		t := x.evalClause(s, cl, sc)
+		if cl.Assumed {
+			x.Trusted["state invariant #"+cl.Tag+" required by "+callee+" is assumed at its call sites (not checked)"]++
+			s.Assume(t)
+			continue
+		}
 		if saved.top || true {
 			x.reqSeq[callee+"#"+cl.Tag]++
 			name := fmt.Sprintf("%s/requires@%s#%s@%d", x.fnTag, callee, cl.Tag, x.reqSeq[callee+"#"+cl.Tag])
@@ -454,9 +463,25 @@ func (x *Exec) applyContract(s *State, fi *FuncInfo, recv *Value, args []*Value,
 	}
 	pre := s.Clone()
 	sc.entry = pre
+	var litWrites WriteSet
+	if c.Invokes != "" && x.selfFn != nil && x.selfFn.Contr != nil && x.selfFn.Contr.Explore {
+		litWrites = x.exploreStep(s, fi, args, saved, call)
+	}
 	// frame: havoc what the callee may write
 	ws := x.funcWrites(fi)
-	if c.HasMod {
+	if litWrites != nil {
+		// the callee's only unknown callee is the literal: its frame is its own writes plus the literal's (instead of the
+		// declared `modifies *`, which stands for an arbitrary function argument)
+		ws2 := WriteSet{}
+		for k := range ws {
+			ws2[k] = true
+		}
+		for k := range litWrites {
+			ws2[k] = true
+		}
+		ws = ws2
+		x.note("FRAME-REFINED: %s at %s writes what its own body and the literal handed to it write: %s", fi.Obj.Name(), x.Pr.Pos(call.Pos()), strings.Join(keysOfWS(ws), ", "))
+	} else if c.HasMod {
 		ws = WriteSet{}
 		for _, m := range c.Modifies {
 			ws[m] = true
@@ -786,4 +811,73 @@ func (x *Exec) uniformIfaceValue(s *State, t types.Type, name string) *Value {
 	}
 	x.ifaceOver[dyn] = over
 	return &Value{K: KOpaque, Typ: t, Dyn: dyn}
+}
+
+// exploreStep: the callee's contract says `invokes p on entry` (checked on the callee's own body: p is only ever called with
+// a context whose state equals the callee's entry state). When the argument for p is a function literal of the function
+// under verification, its body is executed here once, in a copy of the current state and on a cache layer of the current
+// world, so that the obligations inside it (call-site preconditions of modular callees, loop invariants) are generated with
+// the captured variables bound to their real values. The resulting states are discarded: the caller continues with the
+// callee's contract alone.
+func (x *Exec) exploreStep(s *State, fi *FuncInfo, args []*Value, caller *callCtx, call *ast.CallExpr) WriteSet {
+	c := fi.Contr
+	sig := fi.Obj.Type().(*types.Signature)
+	idx, ctxIdx, nfunc := -1, -1, 0
+	for i := 0; i < sig.Params().Len(); i++ {
+		if _, isFn := sig.Params().At(i).Type().Underlying().(*types.Signature); isFn {
+			nfunc++
+		}
+		if sig.Params().At(i).Name() == c.Invokes {
+			idx = i
+		}
+		if ctxIdx < 0 && isCtxType(sig.Params().At(i).Type()) {
+			ctxIdx = i
+		}
+	}
+	if idx < 0 || ctxIdx < 0 || idx >= len(args) || args[idx] == nil || args[idx].K != KFunc || args[idx].Fn == nil || args[idx].Fn.Lit == nil {
+		x.note("EXPLORE: argument for %s at %s is not a function literal: its body is not explored", c.Invokes, x.Pr.Pos(call.Pos()))
+		return nil
+	}
+	cl := args[idx].Fn
+	if nfunc != 1 || x.selfFn.Decl == nil || cl.Lit.Pos() < x.selfFn.Decl.Pos() || cl.Lit.End() > x.selfFn.Decl.End() {
+		return nil // only literals written in the function under verification itself
+	}
+	es := s.Clone()
+	w, ok := es.Worlds[args[ctxIdx].W]
+	if !ok {
+		return nil
+	}
+	child := es.NewWorldID(w)
+	var cargs []*Value
+	lsig, _ := cl.Info.TypeOf(cl.Lit).Underlying().(*types.Signature)
+	if lsig == nil {
+		return nil
+	}
+	for i := 0; i < lsig.Params().Len(); i++ {
+		pt := lsig.Params().At(i).Type()
+		if isCtxType(pt) {
+			cargs = append(cargs, &Value{K: KCtx, Typ: pt, W: child})
+		} else {
+			cargs = append(cargs, x.freshValue(pt, "explore.arg", es))
+		}
+	}
+	dummy := &callCtx{fi: caller.fi, info: caller.info, pkg: caller.pkg, env: caller.env, depth: caller.depth, parent: caller}
+	savedCur, savedSpec, savedWorld := x.cur, x.defaultSpec, x.specWorldID
+	x.cur = dummy
+	x.exploring++
+	defer func() { x.cur, x.defaultSpec, x.specWorldID = savedCur, savedSpec, savedWorld; x.exploring-- }()
+	x.callClosure(es, cl, cargs, call.Pos())
+	x.note("EXPLORE: body of the function literal passed to %s at %s executed at the call site for its obligations", fi.Obj.Name(), x.Pr.Pos(call.Pos()))
+	lw := WriteSet{}
+	x.collectWrites(cl.Lit.Body, cl.Info, cl.Pkg, lw, map[*FuncInfo]bool{})
+	return lw
+}
+
+func keysOfWS(ws WriteSet) []string {
+	var out []string
+	for k := range ws {
+		out = append(out, k)
+	}
+	sort.Strings(out)
+	return out
 }
